@@ -347,7 +347,12 @@ class Check:
         if self.violations:
             os.makedirs(os.path.join(REPLAYS, self.pid), exist_ok=True)
             seen = set()
-            for v in self.violations[:12]:
+            cap = int(os.environ.get("VERIF_MAXVIOL", "12"))
+            # one replay per distinct (clause, signature), most frequent signatures first
+            order = {}
+            for v in self.violations:
+                order.setdefault((v["clause"], v["sig"]), v)
+            for v in list(order.values())[:cap]:
                 h = hashlib.sha256(json.dumps([v["clause"], v["sig"]], default=str).encode()).hexdigest()[:12]
                 if h in seen:
                     continue
@@ -356,8 +361,8 @@ class Check:
                 with open(path, "w") as f:
                     json.dump(v, f, indent=1, default=str)
                 print("VIOLATION property=%s replay=%s clause=%s sig=%s" % (self.pid, path, v["clause"], str(v["sig"])[:200]))
-            if len(self.violations) > 12:
-                print("... %d violations in total" % len(self.violations))
+            if len(self.violations) > len(seen):
+                print("... %d violations in total, %d distinct signatures" % (len(self.violations), len(order)))
             return 1
         print("OK property=%s tier=%s wall=%.1fs states=%d traces=%d evals=%d nontrivial=%d" % (
             self.pid, self.tier, time.time() - self.t0, self.cov["states"],
